@@ -233,3 +233,66 @@ func Harness_C14_stop_topics_for_user_signals_completion() {
 	verifAssert(still && !grp.isInactive() && len(grp.exit) == 0, "somebody-elses-group-untouched")
 	verifReach("end")
 }
+
+// Topic deletion through the real Hub.topicUnreg on a live group, with the store's delete arbitrary (ok or
+// failing): the request is answered; a successful deletion drops the topic from the hub, marks it deleted and
+// tells it to exit; a failed one leaves the topic in service - still registered, not inactive - so that a later
+// disconnect of an attached session is processed (the session ends up detached) and a {leave} is answered.
+// A non-owner's request is handed to the topic itself.
+func Harness_C14_hub_topic_delete() {
+	fx := verifNewTopic(verifKindGrp, 2)
+	t := fx.topic
+	verifNotified = nil
+	hub := fx.hub
+	hub.topicPut(t.name, t)
+	for _, u := range fx.uids {
+		fx.store.users[u] = &types.User{State: types.StateOK, Access: types.DefaultAccess{Auth: types.ModeCAuth}}
+	}
+	owner, member := fx.uids[0], fx.uids[1]
+	so := verifNewSession("sid-owner", owner, auth.LevelAuth, 32)
+	so.inflightReqs = newBoundedWaitGroup(8)
+	sm := verifNewSession("sid-member", member, auth.LevelAuth, 32)
+	sm.inflightReqs = newBoundedWaitGroup(8)
+	fx.attach(so, owner, false)
+	fx.attach(sm, member, false)
+	byOwner := verifNondetBool("byOwner")
+	actor, as := owner, so
+	if !byOwner {
+		actor, as = member, sm
+	}
+	fx.store.failAt = verifChoose("failAt", 2) - 1
+	msg := &ClientComMessage{Id: "d1", AsUser: actor.UserId(), AuthLvl: int(auth.LevelAuth), Original: t.name, RcptTo: t.name,
+		Timestamp: types.TimeNow(), sess: as, init: true, Del: &MsgClientDel{Id: "d1", Topic: t.name, What: "topic", Hard: verifNondetBool("hard")}}
+	err := hub.topicUnreg(as, t.name, msg, StopDeleted)
+	faulted := fx.store.failed
+	fx.store.failAt = -1
+	if !byOwner {
+		verifAssert(err == nil && len(t.meta) == 1 && !faulted, "non-owners-request-handed-to-the-topic")
+		verifAssert(hub.topicGet(t.name) == t && !t.isInactive(), "topic-stays-in-service-for-a-non-owners-request")
+		verifReach("end-non-owner")
+		return
+	}
+	replies := verifDrainSend(so)
+	verifAssert(len(replies) == 1 && replies[0].Ctrl != nil && replies[0].Ctrl.Id == "d1", "delete-request-answered-once")
+	if faulted {
+		verifAssert(err != nil && replies[0].Ctrl.Code >= 500, "failed-deletion-reported")
+		verifAssert(hub.topicGet(t.name) == t, "failed-deletion-keeps-the-topic-registered")
+		verifAssert(!t.isInactive() && !t.isDeleted(), "failed-deletion-leaves-the-topic-in-service")
+		verifAssert(len(t.exit) == 0, "failed-deletion-does-not-stop-the-topic")
+		// the topic still processes a disconnect and a leave
+		t.unregisterSession(&ClientComMessage{sess: sm, init: false})
+		_, still := t.sessions[sm]
+		verifAssert(!still, "terminated-session-detached-after-a-failed-deletion")
+		so.inflightReqs.Add(1)
+		lv := &ClientComMessage{Id: "l1", AsUser: owner.UserId(), AuthLvl: int(auth.LevelAuth), Original: t.name, RcptTo: t.name,
+			Timestamp: types.TimeNow(), sess: so, init: true, Leave: &MsgClientLeave{Id: "l1", Topic: t.name}}
+		t.unregisterSession(lv)
+		lr := verifDrainSend(so)
+		verifAssert(len(lr) == 1 && lr[0].Ctrl != nil && lr[0].Ctrl.Code < 300, "leave-answered-after-a-failed-deletion")
+	} else {
+		verifAssert(err == nil && replies[0].Ctrl.Code == 200, "deletion-acknowledged")
+		verifAssert(hub.topicGet(t.name) == nil && t.isDeleted(), "deleted-topic-dropped-and-marked")
+		verifAssert(len(t.exit) == 1, "deleted-topic-told-to-exit")
+	}
+	verifReach("end")
+}
